@@ -306,7 +306,7 @@ func c16ErrCode(msg string) string {
 		return "http"
 	case strings.HasPrefix(msg, "http fetch:") && strings.Contains(msg, "x509:"):
 		return "tls"
-	case strings.HasPrefix(msg, "http fetch:") && strings.Contains(msg, "Client.Timeout exceeded"):
+	case strings.HasPrefix(msg, "http fetch:") && (strings.Contains(msg, "Client.Timeout exceeded") || strings.Contains(msg, "context deadline exceeded")):
 		return "timeout"
 	}
 	return "other:" + msg
